@@ -10,8 +10,13 @@ PROP = "C07"
 READS = [(op, (None,)) for op in ("get", "gets", "get_many", "gets_many", "gat", "gats")]
 
 
+USABLE = {"C06-next-call-after-a-failure-works", "C06-failed-socket-closed-by-the-end-of-the-call",
+          "C06-failed-socket-never-used-again"}
+
+
 def relevant(c):
-    return c.startswith("C07-")
+    # "afterwards the client is still usable": the swallowed failure must not leave a dead or desynchronised connection
+    return c.startswith("C07-") or c.startswith("C01-") or c in USABLE
 
 
 def main(tier, rep):
